@@ -71,6 +71,17 @@ func decideConstEq(cond ssa.Value, isSubject func(ssa.Value) bool, chosen string
 	return boolAB((s == chosen) == (bo.Op == token.EQL))
 }
 
+// c15SeedConstEq gives a comparison of the subject with a constant its value for the chosen constant where it is
+// computed, so that a comparison hoisted into a local (`isAnd := b.op == "and"`) and then used as a boolean value
+// (compared with a result, negated, returned) is decided like the same comparison written in a branch.
+func c15SeedConstEq(s *core.PathState, in ssa.Instruction, isSubject func(ssa.Value) bool, chosen string) {
+	if bo, ok := in.(*ssa.BinOp); ok {
+		if d := decideConstEq(bo, isSubject, chosen); d != core.Unk {
+			s.Vals[bo] = d
+		}
+	}
+}
+
 // evalTable explores fn for each (operator, situation) cell; decideCall gives the abstract result of the comparison
 // primitives in that situation. Returns table[op][situation] = "T" | "F" | "panic" | "?".
 // c15Bind maps the parameters of a helper being evaluated on behalf of a comparison function to the values it was
@@ -167,6 +178,7 @@ func evalTable(fn *ssa.Function, ops map[string]string, situations []string, dec
 				}
 			}
 			core.ExplorePaths(fn, core.PathRules{
+				OnInstr: func(s *core.PathState, in ssa.Instruction) { c15SeedConstEq(s, in, isOperatorValue, opText) },
 				OnBranch: func(s *core.PathState, cond ssa.Value) core.AB {
 					return decideConstEq(cond, isOperatorValue, opText)
 				},
@@ -394,14 +406,17 @@ func c15R2(p *core.Program, r *core.Report, evalBool, evalCond, evalNode, evalCW
 	for _, op := range []string{"and", "or"} {
 		for _, vec := range [][]bool{{false, false}, {false, true}, {true, false}, {true, true}} {
 			result := ""
+			isOpLoad := func(v ssa.Value) bool {
+				u, ok := v.(*ssa.UnOp)
+				return ok && core.FieldAddrVar(u.X) != nil && core.FieldAddrVar(u.X).Name() == "op"
+			}
 			core.ExplorePaths(evalBool, core.PathRules{
 				LoopBound: 4,
+				// the test of the operator may be kept in a local (isAnd := b.op == "and") and used as a value later
+				OnInstr: func(s *core.PathState, in ssa.Instruction) { c15SeedConstEq(s, in, isOpLoad, op) },
 				OnBranch: func(s *core.PathState, cond ssa.Value) core.AB {
 					// b.op == "and"
-					if d := decideConstEq(cond, func(v ssa.Value) bool {
-						u, ok := v.(*ssa.UnOp)
-						return ok && core.FieldAddrVar(u.X) != nil && core.FieldAddrVar(u.X).Name() == "op"
-					}, op); d != core.Unk {
+					if d := decideConstEq(cond, isOpLoad, op); d != core.Unk {
 						return d
 					}
 					// loop bound: idx < len(children): true while fewer than 2 children were evaluated in this loop
@@ -474,6 +489,8 @@ func c15R2(p *core.Program, r *core.Report, evalBool, evalCond, evalNode, evalCW
 		result := ""
 		core.ExplorePaths(evalCond, core.PathRules{
 			LoopBound: 4,
+			// the test of the operator may be kept in a local and used as a value later
+			OnInstr: func(s *core.PathState, in ssa.Instruction) { c15SeedConstEq(s, in, isOperatorValue, opText) },
 			OnBranch: func(s *core.PathState, cond ssa.Value) core.AB {
 				if d := decideConstEq(cond, isOperatorValue, opText); d != core.Unk {
 					return d
@@ -703,34 +720,104 @@ func c15R3R4(p *core.Program, r *core.Report, evalCWV, numCmp, dateCmp, textCmp 
 	}
 	keyP := paramNamed(qp, "key")
 	typeP := paramNamed(qp, "propType")
-	core.EachInstr(qp, false, func(_ *ssa.Function, in ssa.Instruction) {
-		mi, ok := in.(*ssa.MakeInterface)
-		if !ok || core.ShortType(mi.Type()) != "any" {
-			return
-		}
+	// QueryProperty may hand the key / the property type on to helpers of the package that build the values (the
+	// attribute switch as a method, one loop shared by the two URN cases): each helper is read like the body of
+	// QueryProperty, its parameters standing for the key and the type it was called with, under the situation of the
+	// call site. Only helpers whose result can hold query values ([]any / any) are followed, two levels deep.
+	type c15Host struct {
+		fn       *ssa.Function
+		key, typ ssa.Value // what stands for the key / the property type in fn (nil when it is not handed on)
+		sit      string    // situation established by the call sites on the way to fn
+		recv     bool      // fn is a method called on QueryProperty's own receiver
+	}
+	sitAt := func(h c15Host, b *ssa.BasicBlock) string {
 		sit := ""
-		for _, ce := range core.ControllingConds(mi.Block()) {
+		for _, ce := range core.ControllingConds(b) {
 			bo, ok := ce.Cond.(*ssa.BinOp)
 			if !ok || bo.Op != token.EQL || !ce.Taken {
 				continue
 			}
-			if bo.X == ssa.Value(keyP) {
+			if h.key != nil && bo.X == h.key {
 				if s, ok := core.ConstString(bo.Y); ok {
 					sit = "attribute:" + s
 				}
 			}
-			if bo.X == ssa.Value(typeP) && sit == "" {
+			if h.typ != nil && bo.X == h.typ && sit == "" {
 				if s, ok := core.ConstString(bo.Y); ok && s == "urn" {
 					sit = "urn"
 				}
 			}
 		}
 		if sit == "" {
-			// the field fall-through passes QueryValue's result on unchanged (already an interface): not a MakeInterface
-			sit = "other"
+			sit = h.sit
 		}
-		addProduced(sit, core.ShortType(mi.X.Type()))
-	})
+		return sit
+	}
+	holdsValues := func(g *ssa.Function) bool {
+		res := g.Signature.Results()
+		for i := 0; i < res.Len(); i++ {
+			t := res.At(i).Type()
+			if sl, ok := t.Underlying().(*types.Slice); ok {
+				t = sl.Elem()
+			}
+			if core.ShortType(t) == "any" {
+				return true
+			}
+		}
+		return false
+	}
+	hosts := []c15Host{{fn: qp, recv: true}}
+	if keyP != nil {
+		hosts[0].key = keyP
+	}
+	if typeP != nil {
+		hosts[0].typ = typeP
+	}
+	var follow func(h c15Host, depth int)
+	follow = func(h c15Host, depth int) {
+		if depth >= 2 {
+			return
+		}
+		for _, cs := range core.Calls(h.fn, false) {
+			g := cs.Common().StaticCallee()
+			if cs.Common().IsInvoke() || g == nil || len(g.Blocks) == 0 || g == qp || g == qv || g == h.fn || core.FuncPkgPath(g) != core.FuncPkgPath(qp) || !holdsValues(g) {
+				continue
+			}
+			nh := c15Host{fn: g, sit: sitAt(h, cs.Instr.Block())}
+			for i, a := range cs.Common().Args {
+				if i >= len(g.Params) {
+					break
+				}
+				if h.key != nil && a == h.key {
+					nh.key = g.Params[i]
+				}
+				if h.typ != nil && a == h.typ {
+					nh.typ = g.Params[i]
+				}
+				if i == 0 && h.recv && g.Signature.Recv() != nil && len(h.fn.Params) > 0 && a == ssa.Value(h.fn.Params[0]) {
+					nh.recv = true
+				}
+			}
+			hosts = append(hosts, nh)
+			follow(nh, depth+1)
+		}
+	}
+	follow(hosts[0], 0)
+	for _, h := range hosts {
+		h := h
+		core.EachInstr(h.fn, false, func(_ *ssa.Function, in ssa.Instruction) {
+			mi, ok := in.(*ssa.MakeInterface)
+			if !ok || core.ShortType(mi.Type()) != "any" {
+				return
+			}
+			sit := sitAt(h, mi.Block())
+			if sit == "" {
+				// the field fall-through passes QueryValue's result on unchanged (already an interface): not a MakeInterface
+				sit = "other"
+			}
+			addProduced(sit, core.ShortType(mi.X.Type()))
+		})
+	}
 	fieldTypeCall := func(v ssa.Value) bool {
 		c, ok := v.(*ssa.Call)
 		return ok && c.Call.IsInvoke() && c.Call.Method.Name() == "Type"
@@ -833,7 +920,21 @@ func c15R3R4(p *core.Program, r *core.Report, evalCWV, numCmp, dateCmp, textCmp 
 		r.Require("field_lookups_in_QueryProperty", nF, 1)
 	}
 	{
-		nG := c15PresenceGuards(p, r, qp, "QueryProperty", []ssa.Value{keyP, typeP})
+		nG := 0
+		guarded := map[*ssa.Function]bool{}
+		for _, h := range hosts { // QueryProperty and the methods it calls on its own receiver to build the values
+			if !h.recv || guarded[h.fn] {
+				continue
+			}
+			guarded[h.fn] = true
+			var skip []ssa.Value
+			for _, v := range []ssa.Value{h.key, h.typ} {
+				if v != nil {
+					skip = append(skip, v)
+				}
+			}
+			nG += c15PresenceGuards(p, r, h.fn, "QueryProperty", skip)
+		}
 		if qv := p.Method("flows", "FieldValue", "QueryValue"); qv != nil {
 			nG += c15PresenceGuards(p, r, qv, "FieldValue.QueryValue", nil)
 		} else {
